@@ -73,6 +73,7 @@ def offpolicy(tier: str, prop: str) -> list[dict]:
         dict(sac, kind="box", dims=[2, 2], S=6, n=1, T=1, buffer=10, starts=10, batch=10, pfreq=3, autotune=True, stack=[]),
         dict(sac, kind="box", dims=[2], S=4, n=1, T=1, buffer=6, starts=6, batch=6, pfreq=3, autotune=False, stack=["TimeLimit"]),   # gating without autotune
         dict(sac, kind="boxscalar", dims=[4], S=5, n=2, T=2, buffer=8, starts=4, batch=8, pfreq=2, autotune=False, stack=[]),
+        dict(sac, kind="box", dims=[2], S=4, n=1, T=2, buffer=6, starts=6, batch=6, pfreq=2, autotune=False, alpha_lr=0.01, stack=["TimeLimit"]),   # explicit alpha_lr must not switch tuning on
     ]
     # independence probe (C12): uniformly random behaviour that does not depend on the state, enough steps that two
     # nodes producing the same action stream by chance has probability <= 2^-48
@@ -154,6 +155,9 @@ def mask_query(tier: str, prop: str) -> list[dict]:
         dict(d, policy="mlp_ac", kind="multidiscrete", dims=[2, 2], K=2048, L=4),
         dict(d, policy="table_ac", kind="multibinary", dims=[2], K=2048, L=4),
         dict(d, policy="table_ac", kind="discrete", dims=[3], K=2048, L=4),
+        # laws built from probabilities (`probs=`) instead of logits: masking must work for both parameterisations
+        dict(d, policy="table_ac", kind="multibinary", dims=[3], K=32, L=10, use_probs=True),
+        dict(d, policy="table_ac", kind="discrete", dims=[4], K=32, L=10, use_probs=True),
     ]
     if tier == "quick":
         return base
